@@ -60,7 +60,7 @@ EXHAUSTIVE_NOTE = {
     "thorough": "all 564160 one-module hierarchies of exactly 6 classes (same alphabet), every class judged, base orders CPython rejects included; all 4096 three-class "
     "graphs with bases among all three classes. Member placement: one (hierarchies) / two (cyclic graphs) seeded samples per graph, not exhaustive; the multi-module search is sampled, not exhaustive",
 }
-BUDGET_S = {"quick": 100.0, "thorough": 1500.0}
+BUDGET_S = {"quick": 90.0, "thorough": 1500.0}
 SHRINK_MAX_EXAMPLES = 6000
 
 
@@ -375,12 +375,13 @@ def run_shard(ctx) -> None:
         ctx.res.extra["one_module_hierarchies"] = acyclic.size
         ctx.res.extra["cyclic_graphs"] = cyclic.size
         ctx.res.extra["member_placements_per_graph"] = ctx.scale(2, 1)
-    _enumerate(ctx, "cyc", cyclic, ctx.scale(2, 2))
+    # the exhaustive parts first: a wall-clock budget that runs out (busy machine) then only cuts the sampled search
+    _enumerate(ctx, "cyc", cyclic, 2)
+    _enumerate(ctx, "one", acyclic, ctx.scale(2, 1))
     strat, salt = strategy(ctx)
 
     def desc(case):
         nontrivial, classes = describe(case, _expect_of(case))
         return (case if nontrivial else None), classes, case
 
-    ctx.run_hypothesis(strat, check_case, ctx.scale(1500, 12000), describe=desc, salt=salt)
-    _enumerate(ctx, "one", acyclic, ctx.scale(2, 1))
+    ctx.run_hypothesis(strat, check_case, ctx.scale(1000, 12000), describe=desc, salt=salt)
